@@ -1,6 +1,7 @@
 package main
 
 import (
+	"bufio"
 	"bytes"
 	"encoding/binary"
 	"encoding/json"
@@ -347,10 +348,14 @@ func vmCmd(args []string) error {
 	three := fs.Bool("three", true, "also run without debugger and with the scribbling debugger")
 	start := fs.Int("start", 0, "skip the first k cases (restart after a crash)")
 	fs.Parse(args)
-	raw, err := readNDJSON(*casesPath)
+	// cases are streamed: one line is decoded, executed and forgotten (files of several hundred MB in thorough runs)
+	cf, err := os.Open(*casesPath)
 	if err != nil {
 		return err
 	}
+	defer cf.Close()
+	sc := bufio.NewScanner(cf)
+	sc.Buffer(make([]byte, 1<<20), 1<<28)
 	mode := os.O_CREATE | os.O_WRONLY | os.O_TRUNC
 	if *start > 0 {
 		mode = os.O_CREATE | os.O_WRONLY | os.O_APPEND
@@ -366,10 +371,16 @@ func vmCmd(args []string) error {
 	}
 	le := func(v uint32) []int { b := make([]byte, 4); binary.LittleEndian.PutUint32(b, v); return ints(b) }
 	intent := *out + ".intent"
-	for i := *start; i < len(raw); i++ {
+	for i := 0; sc.Scan(); i++ {
+		if len(sc.Bytes()) == 0 {
+			i--
+			continue
+		}
+		if i < *start {
+			continue
+		}
 		var c vmCase
-		b, _ := json.Marshal(raw[i])
-		if err := json.Unmarshal(b, &c); err != nil {
+		if err := json.Unmarshal(sc.Bytes(), &c); err != nil {
 			return err
 		}
 		os.WriteFile(intent, []byte(fmt.Sprintf("%d", i)), 0o644)
